@@ -1,5 +1,5 @@
 (* C09 - kriging results do not depend on how the computation is carried out. *)
-From SG Require Import Base.Prelude Base.NumpyPrims Model.Pairs Model.Kriging Proofs.PairsP Proofs.KrigingP.
+From SG Require Import Base.Prelude Base.NumpyPrims Model.Pairs Model.Kriging Proofs.PairsP Proofs.KrigingP Proofs.StableP.
 Local Open Scope Q_scope.
 
 (* any batch composition: the result of a concatenated batch is the concatenation of the results *)
@@ -39,3 +39,13 @@ Print Assumptions C09_same_selection.
    call by the residual in the harness (trusted leaf). *)
 Example C09_nonvacuous : zs (transform ([inl (1, 2)] ++ [inr Singular; inl (5, 6)])) = [Some 1; None; Some 5].
 Proof. reflexivity. Qed.
+
+(* the sort is stable (np.argsort(kind="stable")): candidates at one and the same distance keep their index order, and the
+   selected ones among them are the first ones - which equidistant observations enter a neighbourhood is determined *)
+Theorem C09_sort_stable k l : filter (has_key k) (sort_by l) = filter (has_key k) l.
+Proof. exact (sort_by_stable k l). Qed.
+Print Assumptions C09_sort_stable.
+Theorem C09_ties_by_position cands N k :
+  exists m, filter (has_key k) (firstn N (sort_by cands)) = firstn m (filter (has_key k) cands).
+Proof. exact (closest_ties_by_position cands N k). Qed.
+Print Assumptions C09_ties_by_position.
